@@ -1,5 +1,6 @@
 //! module name -> binder
 use crate::common::Obs;
+use crate::gas::GasBinder;
 use crate::gateway::GatewayBinder;
 use crate::token::TokenBinder;
 use serde_json::Value as J;
@@ -7,6 +8,7 @@ use serde_json::Value as J;
 pub enum B {
     Gateway(GatewayBinder),
     Token(TokenBinder),
+    Gas(GasBinder),
 }
 
 impl B {
@@ -14,12 +16,14 @@ impl B {
         match self {
             B::Gateway(b) => b.exec(act),
             B::Token(b) => b.exec(act),
+            B::Gas(b) => b.exec(act),
         }
     }
     pub fn project(&mut self) -> J {
         match self {
             B::Gateway(b) => b.project(),
             B::Token(b) => b.project(),
+            B::Gas(b) => b.project(),
         }
     }
 }
@@ -28,6 +32,7 @@ pub fn make_binder(module: &str, inst: &J, init: &J) -> B {
     match module {
         "Gateway" => B::Gateway(GatewayBinder::new(inst, init)),
         "Token" => B::Token(TokenBinder::new(inst, init)),
+        "GasService" => B::Gas(GasBinder::new(inst, init)),
         m => panic!("unknown module {m}"),
     }
 }
